@@ -513,7 +513,7 @@ if __name__ == "__main__":
         seed = int(os.environ.get("VERIF_SEED", "1"))
         outdir = os.path.join(common.OUT, "evaldiff_dev")
     os.makedirs(_Ctx.outdir, exist_ok=True)
-    profs = sys.argv[1].split(",") if len(sys.argv) > 1 else ALL_PROFILES
+    profs = sys.argv[1].split(",") if len(sys.argv) > 1 and sys.argv[1] not in ("", "all") else ALL_PROFILES
     n = int(sys.argv[2]) if len(sys.argv) > 2 else 600
     r = run_evaldiff(_Ctx, profs, n, "quick", overrides=sys.argv[3:], shrink_max=int(os.environ.get("SHRINK", "2")))
     for k in ("c02", "c08", "crashes", "rejected", "harness", "errors"):
